@@ -225,6 +225,7 @@ func checkC06(w *Worker) {
 	}
 	if w.Tier == "quick" {
 		w.Explore("utc-global-alldates-le2days", ExploreOpts{ShardDepth: 6, Budgets: map[string]int{"layout:position": 0, "env:tz": 0}}, period(true, 2, true))
+		w.Explore("utc-global-window-le3days", ExploreOpts{ShardDepth: 6, Budgets: map[string]int{"layout:position": 0, "env:tz": 0}}, period(false, 3, true))
 		w.Explore("position-tz-dev1-window-le2days", ExploreOpts{ShardDepth: 6, Budgets: map[string]int{"layout:position": 1, "env:tz": 1}}, period(false, 2, true))
 		return
 	}
